@@ -409,6 +409,7 @@ def gen_case(rng, kind, thorough):
         else:
             mh, mw = gen_max(rng, H), gen_max(rng, W)
         c["sizes"], c["mh"], c["mw"] = [list(x) for x in sizes], mh, mw
+        c["provider"] = mh is not None and mw is not None and rng.random() < 0.4   # maxima through provider.max_height_and_width
         c["pts"] = gen_pts(rng, sizes[0][0], sizes[0][1], 3)
     elif kind == "cropper":
         c["h"], c["w"] = rng.choice([(8, 8), (16, 16), (9, 11), (32, 24), (5, 7), (64, 64), (2, 2), (40, 17)])
@@ -468,6 +469,8 @@ def gen_case(rng, kind, thorough):
             cfg.update({"contrast_p": pv(), "contrast_min": 0.5, "contrast_max": rng.choice([2.0, 1.5])})
         if "brightness" in chosen:
             cfg.update({"brightness_p": pv(), "brightness": rng.choice([0.0, 0.2, 0.3])})
+        if c["via"] == "dp" and "affine" in chosen and rng.random() < 0.3:
+            cfg["scale"] = rng.choice([1.0, 1.25])             # KorniaAugmenter accepts a float: (scale, scale)
         c["ops"] = sorted(chosen)
         c["aug_cfg"] = cfg
         c["aug_seed"] = rng.randrange(1 << 30)
@@ -991,7 +994,13 @@ def run_smdp(I, c, m, o):
     exs = [{"image": im.clone(), "instances": kp.clone()} for im in imgs]
     got, err = [], None
     try:
-        for y in I.rz.SizeMatcher(exs, max_height=c["mh"], max_width=c["mw"]):
+        if c.get("provider"):
+            class Provider:
+                max_height_and_width = (c["mh"], c["mw"])
+            dp = I.rz.SizeMatcher(exs, provider=Provider())
+        else:
+            dp = I.rz.SizeMatcher(exs, max_height=c["mh"], max_width=c["mw"])
+        for y in dp:
             got.append(y)
     except Exception as e:                                 # the DataPipe raises a bare Exception
         err = str(e)
